@@ -319,6 +319,12 @@ func runC15(c *Ctx) {
 	}
 
 	c15CacheKeyIdentity(c)
+	apqVersionGate(c)
+	getParamFields(c)
+	// a hash-only request must not find a previous request's text in the pooled request object (C07/pool-reset), and an error
+	// from the extension must stop the request (C03/fail-closed)
+	c07PoolReset(c)
+	c03FailClosed(c)
 
 	c.R.Rule("who-adds", "Cache[string].Add is called (through the interface) only by methods of extension.AutomaticPersistedQuery (each such site is subject to add-guarded)", 1)
 	for _, fn := range fns {
